@@ -920,7 +920,7 @@ def gen_tpl(rng, E):
                     sl = [[None, None], [1, None]]
             elif kind == "str":
                 if rng.random() < 0.5:
-                    sl = [[rng.choice([None, 0, 1, 5]), rng.choice([None, 2, 8])]]
+                    sl = [[rng.choice([None, 0, 1, 5]), rng.choice([None, 2, 8, 0])]]   # `[:0]`, `[1:0]`: an explicit bound 0 is a bound
                     if sl[0][0] is not None and sl[0][0] == sl[0][1]:
                         sl = [[sl[0][0], None]]
                 fm = rng.choice([None, None, ":s", ":10s"])
